@@ -9,7 +9,7 @@ UNITS_LOCAL = {"C08": [
          flags=ASAN, env=_ENV, opt="-O1", engine="seqmc",
          budget={"quick": 100, "thorough": 1000},
          rule=("every history of 1..6 (thorough 1..7) enabled operations, shortest first, over a pool of 2 heap objects (obj0 a Node:Base, obj1 a Derived:Base, both counting destructor runs and both "
-               "owning a member handle `IntrusivePtr<Base> next`) and 3 heap-allocated handle slots (h0,h1 IntrusivePtr<Base>, h2 Ref<Derived>), each replayed on fresh objects inside a forked ASan+UBSan shard; alphabet of 65: "
+               "owning a member handle `IntrusivePtr<Base> next`) and 3 heap-allocated handle slots (h0,h1 IntrusivePtr<Base>, h2 Ref<Derived>), each replayed on fresh objects inside a forked ASan+UBSan shard; alphabet of 67: "
                "create object k, creator refDec / refInc (creator holds 0..2 references), per slot default-construct, construct from raw k / from null raw, copy-construct from the other Base slot, move-construct, "
                "converting construct Base<-Derived handle, copy-assign (incl. to itself), move-assign (incl. to itself), assign converted Derived handle, assign raw k, assign null, destroy slot; "
                "objects owning handles: h_i = new obj_k with the creator reference dropped (the handle is the only owner), obj_k.next = h_j (both j) / = null, "
